@@ -127,6 +127,25 @@ func (ll *Listeners) UnmarshalFlag(data string) error {
 	return nil
 }
 
+// UnmarshalYAML will read the listeners from a YAML list of strings, each in the same syntax
+// as the command line flag (<channel>~<listen-url>[~<forward-url>])
+func (ll *Listeners) UnmarshalYAML(unmarshal func(interface{}) error) error {
+	stuff := make([]string, 0)
+	if err := unmarshal(&stuff); err != nil {
+		return errors.WithStack(err)
+	}
+
+	res := make(Listeners, 0)
+	for _, s := range stuff {
+		if err := res.UnmarshalFlag(s); err != nil {
+			return errors.WithStack(err)
+		}
+	}
+
+	*ll = res
+	return nil
+}
+
 // ------ // ------ // ------ // ------ // ------ // ------ // ------ //
 
 // Listener is a high-level implementation that listens to connections and tries to connect to backend upstreams(s).
